@@ -10,10 +10,10 @@ mv $pkg/tests/seeded_demo.rs /tmp/seeded_demo_$$.rs
 cargo test --workspace --no-fail-fast --offline 2>&1 | grep -E "^test result|FAILED|failed" | grep -v "^test result: ok" | head -8
 mv /tmp/seeded_demo_$$.rs $pkg/tests/seeded_demo.rs
 cargo test -p $pkg --test seeded_demo --offline 2>&1 | grep -E "^test result" | sed 's/^/with change:    /'
-git stash push -q -- cadence/src cadence-macros/src
-cargo test -p $pkg --test seeded_demo --offline 2>&1 | grep -E "^test result" | sed 's/^/without change: /'
-git stash pop -q
 git diff -- cadence/src cadence-macros/src > /tmp/seeded_$name.patch
+git apply -R /tmp/seeded_$name.patch
+cargo test -p $pkg --test seeded_demo --offline 2>&1 | grep -E "^test result" | sed 's/^/without change: /'
+git apply /tmp/seeded_$name.patch
 echo "--- checks against the change applied to /repo"
 cd /repo && git apply /tmp/seeded_$name.patch || { echo "PATCH DID NOT APPLY"; exit 3; }
 for id in "$@"; do (cd /verif && VERIF_SKIP_MUTANTS=1 ./check $id 2>&1 | grep -E "^VIOLATION|^  rule=|TOOL-ERROR|^\[$id|MODEL-DIV" | cut -c1-330 | head -8); done
